@@ -13,6 +13,7 @@ package main
 // unchanged source — requests nothing and notifies nothing.
 
 import (
+	"fmt"
 	"os"
 	"path/filepath"
 	"syscall"
@@ -71,6 +72,10 @@ func runHistory(in Sx) (out Sx) {
 
 func c02History(in Sx) Sx {
 	A, S1, S2 := sxEntries(in.L[0]), sxEntries(in.L[1]), sxEntries(in.L[2])
+	filter := 0
+	if len(in.L) > 3 {
+		filter = in.L[3].Int()
+	}
 	work := WorkDir("c02h-")
 	defer os.RemoveAll(work)
 	dest := filepath.Join(work, "d")
@@ -96,7 +101,7 @@ func c02History(in Sx) Sx {
 		if err != nil {
 			return L(N(0xffff), S("newfs"))
 		}
-		res := RunTransfer(TransferCfg{Src: fs, Dest: dest, Differ: fsutil.DiffMetadata, Notify: true, Timeout: 15 * time.Second})
+		res := RunTransfer(TransferCfg{Src: fs, Dest: dest, Differ: fsutil.DiffMetadata, Notify: true, Filter: c05Filter(filter), Timeout: 15 * time.Second})
 		failed := res.SendErr != nil || res.RecvErr != nil || res.Hung
 		after, err := SnapshotRaw(dest, true)
 		if err != nil {
@@ -127,10 +132,18 @@ func c02OnDisk(es []flatEntry) {
 }
 
 func c02EmitHistory(g *Gen, A, S1, S2 []flatEntry, cls string) bool {
+	return c02EmitHistoryF(g, 0, A, S1, S2, cls)
+}
+
+// ... through the receiver's Filter (ReceiveOpt.Filter) selected by code (c05Filter)
+func c02EmitHistoryF(g *Gen, filter int, A, S1, S2 []flatEntry, cls string) bool {
 	c02OnDisk(A)
 	c02OnDisk(S1)
 	c02OnDisk(S2)
 	in := L(entriesSx(A), entriesSx(S1), entriesSx(S2))
+	if filter != 0 {
+		in = L(entriesSx(A), entriesSx(S1), entriesSx(S2), NI(filter))
+	}
 	out := runHistory(in)
 	if len(out.L) == 2 && out.L[0].Kind == 'n' && out.L[0].U64() == 0xfffe {
 		return false
@@ -227,6 +240,71 @@ func c02HistoryDirected(g *Gen) {
 	g.Note("history_directed_cases", n)
 }
 
+// c02HistoryFiltered: histories through a receiver's Filter that rewrites IDENTITY fields (uid/gid
+// remap, mode mask, mtime truncation) or rejects a subtree: create; then edit the metadata of
+// directories and files that already exist at the destination (chmod / chown / touch at the
+// source), add and remove entries; then synchronise the unchanged source again — nothing to do:
+// what lands at the destination and what the differ compares with is the FILTERED stat.
+func c02HistoryFiltered(g *Gen) {
+	n := 0
+	mk := func() []flatEntry {
+		return []flatEntry{
+			{&types.Stat{Path: "a", Mode: 0666, Uid: 1, Gid: 2, ModTime: 1600000001_500000000}, []byte("aa")},
+			{&types.Stat{Path: "b", Mode: uint32(os.ModeDir | 0777), Uid: 3, ModTime: 1700000000e9}, nil},
+			{&types.Stat{Path: "b/f", Mode: 0664, ModTime: 1600000002_250000000}, []byte("bf")},
+			{&types.Stat{Path: "b/s", Mode: uint32(os.ModeDir | 0775), Gid: 4, ModTime: 1700000001e9}, nil},
+			{&types.Stat{Path: "d", Mode: uint32(os.ModeDir | 0777), Uid: 1, Gid: 2, ModTime: 1700000002e9}, nil},
+			{&types.Stat{Path: "d/g", Mode: 0646, Uid: 5, ModTime: 1600000003_750000000}, []byte("g")},
+			{&types.Stat{Path: "d/s", Mode: uint32(os.ModeDir | 0757), Uid: 6, Gid: 6, ModTime: 1700000003e9}, nil},
+			{&types.Stat{Path: "d/s/h", Mode: 0600, ModTime: 1600000004e9}, []byte("h")},
+		}
+	}
+	for filter := 0; filter <= 4; filter++ {
+		for edit := 0; edit < 6; edit++ {
+			for start := 0; start < 2; start++ {
+				S1 := mk()
+				S2 := mk()
+				switch edit {
+				case 0: // chmod of existing directories at the source
+					S2[1].St.Mode ^= 0050
+					S2[4].St.Mode ^= 0005
+					S2[6].St.Mode ^= 0700
+				case 1: // chown of existing directories
+					S2[1].St.Uid += 10
+					S2[4].St.Gid += 10
+					S2[6].St.Uid, S2[6].St.Gid = 0, 0
+				case 2: // chmod / chown / touch of files, one directory
+					S2[0].St.Mode ^= 0011
+					S2[5].St.Uid += 2
+					S2[7].St.ModTime += 3_000000007
+					S2[4].St.Uid += 1
+				case 3: // an entry removed, one added, a directory retouched
+					S2 = append(S2[:5:5], S2[6:]...)
+					S2 = append(S2, flatEntry{&types.Stat{Path: "e", Mode: uint32(os.ModeDir | 0733), Uid: 9, ModTime: 1700000009e9}, nil})
+					S2[1].St.Gid += 3
+				case 4: // nothing
+				case 5: // a directory becomes a file and a file a directory
+					S2[6] = flatEntry{&types.Stat{Path: "d/s", Mode: 0622, ModTime: 1600000007e9}, []byte("was dir")}
+					S2 = S2[:7]
+					S2[0] = flatEntry{&types.Stat{Path: "a", Mode: uint32(os.ModeDir | 0772), Uid: 1, ModTime: 1700000007e9}, nil}
+				}
+				var A []flatEntry
+				if start == 1 {
+					A = mk() // the destination starts as an UNFILTERED copy of the source
+				}
+				cls := fmt.Sprintf("history-filter%d-existing-dirs-edited", filter)
+				if c02EmitHistoryF(g, filter, A, S1, S2, cls) {
+					n++
+				}
+				if c02EmitResyncF(g, 0, uint64(edit), filter, c02CloneEntries(S1), c02CloneEntries(S2), cls) {
+					n++
+				}
+			}
+		}
+	}
+	g.Note("history_filtered_cases", n)
+}
+
 func sortEntries(es []flatEntry) {
 	for i := 1; i < len(es); i++ {
 		for j := i; j > 0 && fsutil.ComparePath(es[j-1].St.Path, es[j].St.Path) > 0; j-- {
@@ -261,7 +339,12 @@ func c02HistoryRandom(g *Gen, n int) {
 			c05FixLinks(es)
 			lists[k] = es
 		}
-		if !c02EmitHistory(g, lists[0], lists[1], lists[2], cls) {
+		filter := 0
+		if r.Chance(40) {
+			filter = 1 + r.Intn(4)
+			cls += "+filter"
+		}
+		if !c02EmitHistoryF(g, filter, lists[0], lists[1], lists[2], cls) {
 			skipped++
 		}
 	}
